@@ -552,6 +552,109 @@ def comp_ksib(prop, tier, comp, work):
 
 
 # --------------------------------------------------------------------------------------------
+# R-SIMDRANGE / R-SIMDID (C12), on instantiations of the SIMD evaluator with CFG guards:
+#  * every packed load/store &p[i] with the loop counter i is reached only through the true edge of (i + N) <= size,
+#    N = register width / element width, size = element count; every scalar tail access p[i] only through i < size;
+#  * the accumulator registers of a reduction are seeded with the identity of the reduction op
+#    (all identity sources of one instantiation agree, a literal is not accepted).
+# --------------------------------------------------------------------------------------------
+def _norm(c):
+    return c.replace(" ", "")
+
+def rule_simd(rows, prop):
+    findings, samples = [], []
+    n_packed = n_tail = n_seed = n_uncovered = 0
+    fns = [r for r in rows if "fn" in r]
+    lambdas = {}
+    for r in fns:
+        if r.get("lambda"):
+            lambdas.setdefault(r.get("parent_sig", ""), {})["lambda@%d" % r["line"]] = r
+    for r in fns:
+        short = r["fn"].split("::")[-1]
+        if r.get("lambda") or not short.startswith("eval_") or not r.get("cfg"):
+            continue   # only instantiations (resolved if-constexpr, CFG available)
+        locs = {}
+        for f in r["facts"]:
+            if f["k"] == "local":
+                locs.setdefault(f["a"], []).append(f["b"])
+        def lanes_ok(name):
+            return any("bit_width" in v and "sizeof(element_type)*8" in _norm(v) for v in locs.get(name, []))
+        def size_ok(name):
+            return any(re.search(r"(\.size\(\)$|^nmtools::size\()", v) for v in locs.get(name, []))
+        for f in r["facts"]:
+            if f["k"] != "call":
+                continue
+            m = re.search(r"(loadu|storeu)\(\(& %(\w+)\[(.+?)\]\)", f["b"])
+            if m:
+                kind, ptr, idx = m.groups()
+                guards = [(_norm(g["cond"]), g["pol"]) for g in f.get("g", []) if "cond" in g]
+                if idx == "%i":
+                    n_packed += 1
+                    ok = False
+                    for c, pol in guards:
+                        mm = re.fullmatch(r"\(\(%i\+%(\w+)\)<=%(\w+)\)", c)
+                        if mm and pol == 1 and lanes_ok(mm.group(1)) and size_ok(mm.group(2)):
+                            ok = True
+                    if not ok:
+                        findings.append(finding("R-SIMDRANGE.packed", prop, r, f["b"].split("::")[-1], "packed %s at &%s[i] is not dominated by the true edge of (i + lanes) <= size; guards seen: %s" % (kind, ptr, guards[:4]), f.get("line")))
+                    elif len(samples) < 3:
+                        samples.append("R-SIMDRANGE %s %s(&%s[i]) under %s" % (short, kind, ptr, guards[0][0]))
+                elif idx == "0" and ptr.startswith("tmp"):
+                    pass   # spill of one register into a local lanes-sized array
+                else:
+                    n_uncovered += 1   # enumerator-computed offsets: not decided (DESIGN §3 C12)
+        # scalar tail loops: accesses p[%i] guarded by (i < size) and not by the packed condition
+        for f in r["facts"]:
+            if f["k"] == "assign" and re.fullmatch(r"%\w+\[%i\]", f["a"]) and "ptr" in f["a"]:
+                guards = [(_norm(g["cond"]), g["pol"]) for g in f.get("g", []) if "cond" in g]
+                if any(re.fullmatch(r"\(\(%i\+%\w+\)<=%\w+\)", c) and pol == 1 for c, pol in guards):
+                    continue
+                n_tail += 1
+                if not any(re.fullmatch(r"\(%i<%(\w+)\)", c) and pol == 1 and size_ok(re.fullmatch(r"\(%i<%(\w+)\)", c).group(1)) for c, pol in guards):
+                    findings.append(finding("R-SIMDRANGE.tail", prop, r, f["a"], "scalar tail store %s is not dominated by the true edge of i < size; guards seen: %s" % (f["a"], guards[:4]), f.get("line")))
+        if short == "eval_reduction":
+            lams = lambdas.get(r.get("sig", ""), {})
+            sources = []
+            for f in r["facts"]:
+                if f["k"] != "call" or "::set1(" not in f["b"] and not f["a"].endswith("set1"):
+                    continue
+                arg = parse_call(f["b"])
+                arg = arg[1][0] if arg and arg[1] else "?"
+                n_seed += 1
+                if arg.startswith("%"):
+                    src = locs.get(arg[1:], ["?"])[0]
+                else:
+                    src = arg
+                mm = re.fullmatch(r"(lambda@\d+)\(\)", src)
+                if mm and mm.group(1) in lams:
+                    rets = sorted(set(x["a"] for x in lams[mm.group(1)]["facts"] if x["k"] == "return"))
+                    sources.append((f, arg, tuple(rets)))
+                else:
+                    findings.append(finding("R-SIMDID", prop, r, f["b"].split("::")[-1], "accumulator register is seeded with %s, not with the identity of the reduction op" % src, f.get("line")))
+            vals = set(s_[2] for s_ in sources)
+            for s_ in sources:
+                if any(not (v == "0" or re.search(r"(^this\.view\.op\.|::)identity\(\)$", v)) for v in s_[2]):
+                    findings.append(finding("R-SIMDID", prop, r, s_[1], "identity source returns %s" % (s_[2],), s_[0].get("line")))
+            if len(vals) > 1:
+                findings.append(finding("R-SIMDID", prop, r, "set1", "identity sources of one reduction instantiation disagree: %s" % sorted(vals)))
+    inst = {"R-SIMDRANGE.packed": n_packed, "R-SIMDRANGE.tail": n_tail, "R-SIMDID": n_seed}
+    return findings, inst, samples, n_uncovered
+
+
+def comp_simd(prop, tier, comp, work):
+    t0 = time.time()
+    tu = os.path.join(VERIF, "drivers", "simd_inst.cpp")
+    rows, err, cmd = run_nmlint(tu, filters=["eval/simd/evaluator/"], inst=True, cfg=True, flags=["-mavx2", "-mfma"])
+    out = dict(broken=[], units=1, functions=len(rows), cmd=cmd)
+    if err:
+        out["broken"].append(err); return out
+    f, inst, samples, unc = rule_simd(rows, prop)
+    tot = sum(inst.values())
+    out.update(findings=f, instances=inst, evaluations=tot, distinct_nontrivial=tot - len(f), samples=samples + ["(not decided: %d packed accesses with enumerator-computed offsets)" % unc], wall_s=round(time.time() - t0, 2))
+    return out
+
+
+# --------------------------------------------------------------------------------------------
 # driver
 # --------------------------------------------------------------------------------------------
 def run(prop, tier, spec, jobs=16):
@@ -591,4 +694,4 @@ def comp_fwd_array(prop, tier, comp, work):
     return out
 
 
-RULES = {"R-FWD.array": comp_fwd_array, "R-FWD.functional": comp_fwd_functional, "R-UFUNC": comp_ufunc, "R-KSIB": comp_ksib}
+RULES = {"R-FWD.array": comp_fwd_array, "R-FWD.functional": comp_fwd_functional, "R-UFUNC": comp_ufunc, "R-KSIB": comp_ksib, "R-SIMD": comp_simd}
